@@ -36,6 +36,10 @@ def gen_case(rng, idx, tier):
     return poolcase.gen_pool_case(rng, faults=True)
 
 
+def on_timeout(case, frames, timeout_s):
+    return poolcase.on_timeout(case, frames, timeout_s)
+
+
 def run_case(case):
     if case.get("lane") == "real":
         from .. import realpool_lanes
